@@ -87,7 +87,12 @@ def marker(kind, key, layer, typ):
     return tag
 
 
-def build(typ, syn, kind, key, subset):
+# values that the most specific present layer may write instead of its marker: a layer that *mentions* a key defines it,
+# whatever the value (None and the falsy values included)
+TOP_VALUES = ['MARKER', None, '', 0, False]
+
+
+def build(typ, syn, kind, key, subset, top='MARKER'):
     user = {'type': typ, 'syntax': syn}
     if syn is None:
         del user['syntax']
@@ -102,7 +107,7 @@ def build(typ, syn, kind, key, subset):
             d = glob.setdefault(syn, {}).setdefault(kind, {})
         else:
             d = user.setdefault(kind, {})
-        d[key] = val
+        d[key] = val if (top == 'MARKER' or layer != subset[-1]) else top
         d[extra] = 'x' + layer if kind != 'snippets' or typ == 'markup' else 'x-prop:2'
     return user, glob
 
@@ -148,10 +153,10 @@ def probe(typ, kind, key):
     return None
 
 
-def check_state(typ, syn, kind, key, subset):
+def check_state(typ, syn, kind, key, subset, top='MARKER'):
     """-> (list of violations, info)"""
     bad = []
-    user, glob = build(typ, syn, kind, key, subset)
+    user, glob = build(typ, syn, kind, key, subset, top)
     u0, g0 = copy.deepcopy(user), copy.deepcopy(glob)
     exp = fold(typ, syn, kind, user, glob)
     try:
@@ -174,7 +179,7 @@ def check_state(typ, syn, kind, key, subset):
     if tables_now() != TABLES0:
         bad.append(('builtin-table-modified:Config', dict(layers=list(subset))))
     # the same winner through expand
-    pr = probe(typ, kind, key)
+    pr = probe(typ, kind, key) if top == 'MARKER' else None
     if pr is not None:
         user2, glob2 = copy.deepcopy(u0), copy.deepcopy(g0)
         user3, glob3 = copy.deepcopy(u0), {}
@@ -219,6 +224,13 @@ def run_shard(shard, ctx, tier):
                     ctx.evals += 1
                     ctx.validated += 1
                     bad, info = check_state(typ, syn, kind, key, sub)
+                    if sub:
+                        for top in TOP_VALUES[1:]:
+                            ctx.evals += 1
+                            ctx.validated += 1
+                            b2, _ = check_state(typ, syn, kind, key, sub, top)
+                            for cls, d in b2:
+                                ctx.violation(cls + ':value=%r' % (top,), dict(type=typ, syntax=syn, kind=kind, key=key, layers=list(sub), top=top), d)
                     if defining_layers(typ, syn, kind, key, sub) >= 2:
                         ctx.nontrivial += 1
                     ctx.outcome((kind, key, info))
@@ -233,8 +245,9 @@ def run_shard(shard, ctx, tier):
 
 
 def check_case(case):
-    bad, _ = check_state(case['type'], case['syntax'], case['kind'], case['key'], tuple(case['layers']))
-    return bad
+    top = case.get('top', 'MARKER')
+    bad, _ = check_state(case['type'], case['syntax'], case['kind'], case['key'], tuple(case['layers']), top)
+    return [(c + ':value=%r' % (top,), d) for c, d in bad] if 'top' in case else bad
 
 
 def repro(case):
